@@ -80,13 +80,13 @@ func init() {
 		RequirePositive: "cmp:", RequireCount: 10,
 	})
 	reg(&propCfg{
-		ID: "C12", Level: "fault_enumeration", Race: "both",
-		Rule: "the real asset.Sync runs between an in-memory source and in-memory / file-system / SQL targets wrapped by a recording, fault-injecting, yielding repository wrapper. Fault enumeration: for scenarios with 1-4 assets ALL subsets of assets whose source read fails x ALL subsets whose target append fails are run (plus assets missing from the source); random scenarios with up to 12 assets, source histories of 0-20 days, target = arbitrary prefix (empty, absent, header-only), explicit asset list or taken from the target, workers 1/2/4/8. Oracles per run: final target state == previous snapshots + exactly the source snapshots dated after the last date (or on/after the default start), in order, no duplicates; error returned iff a failure was injected/expected; assets outside the fault sets fully synchronised; an immediate second run changes nothing; results equal for 1/2/4/8 workers; the recorded call/return history of the target (logical clock) is checked by porcupine against the map-of-ordered-lists model, partitioned by asset; the race phase repeats the multi-worker runs in a -race build. distinct_nontrivial counts (scenario, fault subsets) runs.",
+		ID: "C12", Level: "fault_enumeration", Race: "both", CLI: []string{"indicator-sync"},
+		Rule: "the real asset.Sync runs between an in-memory source and in-memory / file-system / SQL targets wrapped by a recording, fault-injecting, yielding repository wrapper. Fault enumeration: for scenarios with 1-4 assets ALL subsets of assets whose source read fails x ALL subsets whose target append fails are run (plus assets missing from the source); random scenarios with up to 12 assets, source histories of 0-20 days, target = arbitrary prefix (empty, absent, header-only), explicit asset list or taken from the target, workers 1/2/4/8. Oracles per run: final target state == previous snapshots + exactly the source snapshots dated after the last date (or on/after the default start), in order, no duplicates; error returned iff a failure was injected/expected; assets outside the fault sets fully synchronised; an immediate second run changes nothing; results equal for 1/2/4/8 workers; the recorded call/return history of the target (logical clock) is checked by porcupine against the map-of-ordered-lists model, partitioned by asset; the race phase repeats the multi-worker runs in a -race build. End to end: cmd/indicator-sync (built from the tree under test) is executed between generated file-system repositories (explicit names or none, a name missing in the source, 1/2/4 workers) and the target directory compared with the model; exit status non-zero iff a failure was expected. distinct_nontrivial counts (scenario, fault subsets) runs.",
 		Shards: [2]int{16, 16}, MinEvals: [2]int{30, 300},
 	})
 	reg(&propCfg{
-		ID: "C13", Level: "exploration", Race: "both",
-		Rule: "the real backtest.Backtest runs over in-memory / file-system / SQL repositories holding 1-12 generated assets (0 to LastDays-6 snapshots inside the look-back window, 0-40 older ones, dates kept >= 2 days away from the window edge so the wall clock never decides; sometimes an absent asset) x 1-8 strategies with distinct names drawn from the registry and compounds, for Workers in {1,2,3,8,16}. A mutex-protected recording Report logs Begin/AssetBegin/Write/AssetEnd/End with sequence numbers and drains the three streams; an online trace checker decides the protocol order; the multiset of (asset, strategy) written must equal the cartesian product; the drained actions/outcomes must equal, bit for bit, strategy.ComputeWithOutcome evaluated directly on the snapshots inside the window; result sets must be equal for all worker counts. The bundled DataReport (one entry per pair, outcome/action/transactions equal the direct evaluation) and HTMLReport (asset pages and index.html parsed: every pair once, outcomes %.2f equal, rows in non-increasing outcome order, first row maximal) are checked the same way; the race phase repeats the 4- and 16-worker runs in a -race build. distinct_nontrivial counts scenarios.",
+		ID: "C13", Level: "exploration", Race: "both", CLI: []string{"indicator-backtest"},
+		Rule: "the real backtest.Backtest runs over in-memory / file-system / SQL repositories holding 1-12 generated assets (0 to LastDays-6 snapshots inside the look-back window, 0-40 older ones, dates kept >= 2 days away from the window edge so the wall clock never decides; sometimes an absent asset) x 1-8 strategies with distinct names drawn from the registry and compounds, for Workers in {1,2,3,8,16}. A mutex-protected recording Report logs Begin/AssetBegin/Write/AssetEnd/End with sequence numbers and drains the three streams; an online trace checker decides the protocol order; the multiset of (asset, strategy) written must equal the cartesian product; the drained actions/outcomes must equal, bit for bit, strategy.ComputeWithOutcome evaluated directly on the snapshots inside the window; result sets must be equal for all worker counts. The bundled DataReport (one entry per pair, outcome/action/transactions equal the direct evaluation) and HTMLReport (asset pages and index.html parsed: every pair once, outcomes %.2f equal, rows in non-increasing outcome order, first row maximal) are checked the same way; the race phase repeats the 4- and 16-worker runs in a -race build. End to end: cmd/indicator-backtest is executed over a generated file-system repository and every row of its asset pages is compared with a direct evaluation of the tool's own strategy list inside the look-back window. distinct_nontrivial counts scenarios.",
 		Shards: [2]int{16, 16}, MinEvals: [2]int{20, 200},
 	})
 	reg(&propCfg{
